@@ -8,6 +8,7 @@
  r4 NO-ESCAPE       every throwing accessor (optional::value, std::get, at, stoi, substr) in the analysis code is dominated by the test that makes it
                     safe, sits in a try block, or is decided by another rule (variant reads in the checker: C02 r3).
  r5 LEXER-TOTAL     both lexers have a catch-all rule that yields INTERRUPT and reports unknownSymbol; every byte is consumed by some transition.
+ r7 DUMP-SAFE       results echoing the analysed text are serialised with a non-throwing UTF-8 error handler (json dump is strict by default).
  r6 OWN-LOG         an auditor that analyses another text (the body of a called function) never reports into the caller's log.
 Not decided: termination bounds, absence of stack overflow on adversarial nesting, JSON library behaviour.
 """
@@ -630,6 +631,8 @@ def check(db, rep):
     lexer_total(db, r5)
     r6 = rep.rule('r6', 'OWN-LOG: a nested analyser working on another text never reports into the caller\'s log', 1)
     own_log(db, r6)
+    r7 = rep.rule('r7', 'DUMP-SAFE: results that echo the analysed text are serialised with a non-throwing UTF-8 error handler', 3)
+    dump_safe(db, r7)
     r4 = rep.rule('r4', 'NO-ESCAPE: every throwing accessor in the analysis code is guarded, in a try block, or decided by another rule', 100)
     no_escape(db, r4, rep)
 
@@ -801,4 +804,32 @@ def own_log(db, rule):
                         rule.violation(inst, f.loc(c), 'the nested %s is given the reporter of this object: errors found in the other text are logged with positions that do not lie in the input' % c['cls'].split('::')[-1])
                     else:
                         rule.ok(inst, 'nested analyser created without the reporter of the caller', f.loc(c))
+    return n
+
+
+# functions that serialise a document whose strings all come from a parsed JSON document (valid UTF-8 by construction of the parser)
+DUMP_OF_DOCUMENT = {'ccl::api::RSFormJA::ToJSON': 'serialises the schema, whose texts were read from a JSON document', 'ccl::api::RSFormJA::ToMinimalJSON': 'serialises titles and records of the schema, read from a JSON document'}
+
+
+def dump_safe(db, rule):
+    """A result that echoes fragments of the analysed text (error parameters, AST text) must be serialised with a non-throwing error handler:
+    basic_json::dump throws type_error.316 on a string that is not valid UTF-8, and the expression is an arbitrary byte string."""
+    n = 0
+    for f in db.functions:
+        if not f.has_cfg() or not f.file or '/test/' in f.file or 'import/' in f.file:
+            continue
+        for c in f.calls():
+            if not (c.get('cs') or '').endswith('basic_json::dump'):
+                continue
+            n += 1
+            inst = f.name.replace('ccl::', '')
+            if f.name in DUMP_OF_DOCUMENT:
+                rule.ok(inst, DUMP_OF_DOCUMENT[f.name], f.loc(c), nontrivial=False)
+                continue
+            args = [f.stmts[a] for a in c.get('args', [])]
+            handler = [x.get('name') for a in args[3:4] for x in f.walk(a) if x['k'] == 'DeclRefExpr' and x.get('dk') == 'enumerator']
+            if handler and handler[0] in ('replace', 'ignore'):
+                rule.ok(inst, 'dump(..., error_handler_t::%s)' % handler[0], f.loc(c))
+            else:
+                rule.violation(inst, f.loc(c), 'the result is serialised with the default (strict) error handler: an expression that is not valid UTF-8 makes dump() throw json type_error.316 out of the analysis entry point')
     return n
